@@ -58,7 +58,7 @@ _FRESH = [0]
 
 
 class PathEnum:
-    def __init__(self, fn, facts, max_paths=20000, start_env=None, versioned=False, frame="", depth=0, inline_new=True):
+    def __init__(self, fn, facts, max_paths=20000, start_env=None, versioned=False, frame="", depth=0, inline_new=True, inline_also=None, mark_cycles=False):
         self.fn = fn
         self.facts = facts
         self.versioned = versioned
@@ -66,6 +66,9 @@ class PathEnum:
         self.depth = depth
         self.cont = None            # continuation invoked at `return` of an inlined callee
         self.inline_new = inline_new
+        self.inline_also = inline_also    # predicate (path, args): traverse this known crate-local callee inline as well
+        self.mark_cycles = mark_cycles    # record an ("enter", block) event for every block that lies on a CFG cycle
+        self._cyclic = set(fn.cyclic_blocks()) if mark_cycles else ()
         self.max_paths = max_paths
         self.leaves = []
         self.start_env = start_env or {}
@@ -224,6 +227,39 @@ class PathEnum:
         key = pp.place_s(place)
         self._kill_prefix(env, key)
         env[key] = term
+        self._overlay_parent(env, key, term)
+
+    def _overlay_parent(self, env, key, term):
+        """A write to one field of a local that holds a struct/tuple literal: keep the literal up to date, so
+        that a later read of the whole local sees the new component."""
+        while "." in key and not key.endswith(")"):
+            parent, name = key.rsplit(".", 1)
+            cur = env.get(parent)
+            if cur is None or cur[0] not in ("agg", "tuple"):
+                return
+            if cur[0] == "tuple":
+                if not name.isdigit() or int(name) >= len(cur[1]):
+                    return
+                ops = list(cur[1])
+                ops[int(name)] = term
+                new = ("tuple", tuple(ops))
+            else:
+                a = self.facts.adts.get(adt_base(cur[1]))
+                idx = None
+                if a is not None:
+                    for v in a["variants"]:
+                        if v["name"] == cur[2] or a.get("kind") == "struct":
+                            for i, f in enumerate(v["fields"]):
+                                if f["name"] == name:
+                                    idx = i
+                            break
+                if idx is None or idx >= len(cur[3]):
+                    return
+                ops = list(cur[3])
+                ops[idx] = term
+                new = ("agg", cur[1], cur[2], tuple(ops))
+            env[parent] = new
+            key, term = parent, new
 
     def _walk(self, bb, env, conds, trace, events, onpath):
         fn = self.fn
@@ -236,6 +272,8 @@ class PathEnum:
                 return
             onpath = onpath | {bb}
             trace = trace + [ebb]
+            if self.mark_cycles and bb in self._cyclic:
+                events = events + [("enter", ebb, None)]
             b = fn.blocks[bb]
             for si, s in enumerate(b["stmts"]):
                 if s["k"] == "assign":
@@ -284,7 +322,7 @@ class PathEnum:
                 else:
                     path = callee_path(t)
                 ct = ("call", path, args, ebb)
-                if self.inline_new and self.depth < 3 and path in self.facts.fns and path not in known_fns() and t.get("target") is not None:
+                if t.get("target") is not None and path in self.facts.fns and ((self.inline_new and self.depth < 3 and path not in known_fns()) or (self.inline_also is not None and self.depth < 6 and self.inline_also(path, args))):
                     self._inline(path, args, t, env, conds, trace, events, onpath, ebb)
                     return
                 events = events + [("call", ebb, None, path, ct, t)]
@@ -386,7 +424,7 @@ class PathEnum:
         the walk resumes in the caller at each of its returns, with the callee's writes through `&mut`
         parameters (and its invalidations by opaque calls) carried back."""
         callee = self.facts.fns[path]
-        child = PathEnum(callee, self.facts, self.max_paths, None, self.versioned, frame=(self.frame + "/" if self.frame else "") + "%s@%d" % (path.rsplit("::", 1)[-1], bb), depth=self.depth + 1)
+        child = PathEnum(callee, self.facts, self.max_paths, None, self.versioned, frame=(self.frame + "/" if self.frame else "") + "%s@%d" % (path.rsplit("::", 1)[-1], bb), depth=self.depth + 1, inline_new=self.inline_new, inline_also=self.inline_also, mark_cycles=self.mark_cycles)
         child.leaves = self.leaves
         cenv = {}
         bases = {}
@@ -395,7 +433,12 @@ class PathEnum:
             if a[0] == "arg" and not self.frame and env.get("@ver:_%d" % a[1], 0):
                 a = ("argv", a[1], env["@ver:_%d" % a[1]])
             cenv["_%d" % n] = a
-            base = self._base_of(env, args[i])
+            base = None
+            op = t["args"][i] if i < len(t["args"]) else None
+            if op is not None and op["k"] in ("copy", "move"):
+                base = env.get("@ref:" + pp.place_s(op["place"]))    # `&mut local` taken earlier (two-phase borrow temp)
+            if base is None:
+                base = self._base_of(env, args[i])
             if base is None:
                 continue
             bases[n] = base
@@ -425,6 +468,7 @@ class PathEnum:
                         if env2.get(key) is not v:
                             caller._kill_prefix(env2, key)
                             env2[key] = v
+                            caller._overlay_parent(env2, key, v)
             ret = cenv2.get("_0", ("unknown", "unset"))
             caller._assign(env2, dest, ret)
             caller._walk(target, env2, conds2, trace2, events2 + [("inlined-return", bb, None, path, ret)], onpath)
